@@ -190,6 +190,97 @@ def install():
     for op in ("union", "concatenate"):
         _wrap(CFG, op, cfg_bin_ctx(op), cfg_conv)
 
+    # ---- PDA conversions and CFG.to_pda (C13): words over the object's own input alphabet
+    from harness import pdah, fsth
+    from pyformlang.pda import PDA
+
+    def _small_pda(p):
+        try:
+            return len(p.states) <= 4 and p.get_number_transitions() <= 8 and len(p.input_symbols) <= 2 \
+                and len(p.stack_symbols) <= 4 and p.start_state is not None
+        except Exception:  # pylint: disable=broad-except
+            return False
+
+    def _words(symbols, n):
+        syms = sorted(symbols, key=fa.tag)
+        return [[fa.tag(x) for x in w] for w in pdah.words_upto(syms, n)]
+
+    def pda_ctx(op):
+        def before(self, args):
+            if not _small_pda(self):
+                return None
+            return {"op": op, "P": pdah.project(self), "words": _words([x.value for x in self.input_symbols if x.value != "epsilon"], 3), "L": 3}
+        return before
+
+    def pda_conv(ctx, res):
+        if ctx["op"] == "to_cfg":
+            if len(res.productions) > 60:
+                return None
+            ctx["G"] = cfgh.project(res)
+        else:
+            if not len(res.states) <= 6:
+                return None
+            ctx["R"] = pdah.project(res)
+        return ctx
+
+    for op in ("to_final_state", "to_empty_stack", "to_cfg"):
+        _wrap(PDA, op, pda_ctx(op), pda_conv)
+
+    def to_pda_before(self, args):
+        if not _small_cfg(self) or len(self.terminals) > 2:
+            return None
+        return {"op": "to_pda", "G": cfgh.project(self), "words": _words([x.value for x in self.terminals], 3), "L": 3}
+
+    def to_pda_after(ctx, res):
+        ctx["R"] = pdah.project(res)
+        return ctx
+
+    _wrap(CFG, "to_pda", to_pda_before, to_pda_after)
+
+    # ---- LL(1) sets and verdict (C14)
+    from pyformlang.cfg.llone_parser import LLOneParser
+
+    def ll_ctx(op):
+        def before(self, args):
+            g = self._cfg          # pylint: disable=protected-access
+            if not _small_cfg(g):
+                return None
+            return {"op": op, "G": cfgh.project(g)}
+        return before
+
+    def ll_sets(ctx, res):
+        out = []
+        for k, vals in res.items():
+            kt = cfgh.sym_tag(k)
+            if kt.startswith("V:"):
+                out.append([kt, sorted("$" if v == "$" else cfgh.sym_tag(v) for v in vals)])
+        ctx["res"] = sorted(out)
+        return ctx
+
+    _wrap(LLOneParser, "get_first_set", ll_ctx("get_first_set"), ll_sets)
+    _wrap(LLOneParser, "get_follow_set", ll_ctx("get_follow_set"), ll_sets)
+    _wrap(LLOneParser, "is_llone_parsable", ll_ctx("is_llone_parsable"), cfg_bool)
+
+    # ---- FST.translate (C16): translate() is lazy, so the same call is made again here, under the watchdog, on the
+    # receiver as it is at that point of the test; the test's own generator is left untouched
+    from pyformlang.fst import FST
+
+    def translate_before(self, args):
+        try:
+            word = list(args[0])
+            if len(self.states) > 4 or self.get_number_transitions() > 8 or len(word) > 4:
+                return None
+            _DEPTH[0] += 1
+            try:
+                outs, status = fsth.translate_all(self, [word])
+            finally:
+                _DEPTH[0] -= 1
+            return {"op": "translate", "T": fsth.project(self), "words": [[fa.tag(x) for x in word]], "outs": outs, "status": status}
+        except Exception:  # pylint: disable=broad-except
+            return None
+
+    _wrap(FST, "translate", translate_before, lambda ctx, res: ctx)
+
 
 if os.environ.get("PYFORMLANG_VERIF") == "1" and os.environ.get("VERIF_RECORD_FILE"):
     install()
